@@ -1,10 +1,11 @@
 pub mod c01;
 pub mod c03;
+pub mod c10;
 
 use crate::runner::Prop;
 
 pub fn all() -> Vec<Box<dyn Prop>> {
-    vec![Box::new(c01::C01), Box::new(c03::C03)]
+    vec![Box::new(c01::C01), Box::new(c03::C03), Box::new(c10::C10)]
 }
 
 pub fn by_id(id: &str) -> Option<Box<dyn Prop>> {
